@@ -1,6 +1,7 @@
 package flowsim
 
 import (
+	"regexp"
 	"fmt"
 	"strings"
 
@@ -143,12 +144,17 @@ func projVisits(kind string, n, v, a, i int, s1, s2, s3 string) (string, bool) {
 	return "", false
 }
 
+// prepErrRes: an error Result that a prep function returned with a nil Go error
+// (payload kind erresult) may reach exec and post as such or as its nil value;
+// both read "nil" here. Wrapped into another Result ("WER(...)") it stays as it is.
+var prepErrRes = regexp.MustCompile(`(^|[^W])ER\(n\d+v\d+pX\)`)
+
 func projC17(kind string, n, v, a, i int, s1, s2, s3 string) (string, bool) {
 	switch kind {
 	case "exec_start":
-		return fmt.Sprintf("exec n%d v%d a%d i%d receives [%s]", n, v, a, i, s1), true
+		return fmt.Sprintf("exec n%d v%d a%d i%d receives [%s]", n, v, a, i, prepErrRes.ReplaceAllString(s1, "${1}nil")), true
 	case "post_start":
-		return fmt.Sprintf("post n%d v%d receives [%s|%s]", n, v, s2, s3), true
+		return fmt.Sprintf("post n%d v%d receives [%s|%s]", n, v, prepErrRes.ReplaceAllString(s2, "${1}nil"), s3), true
 	}
 	return "", false
 }
